@@ -621,6 +621,21 @@ func isParentClass(
 	isInclude bool,
 ) bool {
 
+	return isParentClassVisited(
+		sig, frame, class, isStaticTarget, isExtend, isInclude, map[base.ClassNode]bool{},
+	)
+}
+
+// the inheritance map may contain cycles: every node is expanded at most once
+func isParentClassVisited(
+	sig base.Sig,
+	frame, class string,
+	isStaticTarget bool,
+	isExtend bool,
+	isInclude bool,
+	visited map[base.ClassNode]bool,
+) bool {
+
 	if isExtend && !isStaticTarget {
 		return false
 	}
@@ -647,8 +662,14 @@ func isParentClass(
 
 	classNode := base.ClassNode{Frame: frame, Class: class}
 
+	if visited[classNode] {
+		return false
+	}
+
+	visited[classNode] = true
+
 	for _, parentNode := range base.ClassInheritanceMap[classNode] {
-		if isParentClass(sig, parentNode.Frame, parentNode.Class, isStaticTarget, parentNode.IsExtend, parentNode.IsInclude) {
+		if isParentClassVisited(sig, parentNode.Frame, parentNode.Class, isStaticTarget, parentNode.IsExtend, parentNode.IsInclude, visited) {
 			return true
 		}
 	}
